@@ -885,6 +885,40 @@ fn boundary(repo: &Path) -> R {
         lean_list(&reg_arities)
     ));
 
+    // ------------------------------------------------------------- context fields
+    let mac = find::parse(repo, "macros/src/lib.rs")?;
+    let f = find::func(&mac, "roto_context", None)?;
+    in_order(
+        &toks(&f.block),
+        &[
+            "let field_name=f.ident.as_ref().unwrap();let field_ty=&f.ty;",
+            "let offset=quote!(std::mem::offset_of!(Self,#field_name));",
+            "let type_id=quote!(std::any::TypeId::of::<#field_ty>());",
+            "roto::__internal::ContextField{name:stringify!(#field_name),offset:#offset,type_name:#type_name,type_id:#type_id,docstring:#docstring,}",
+        ],
+        "derive(Context)",
+    )?;
+    let tc = find::parse(repo, "src/typechecker/mod.rs")?;
+    let f = find::func(&tc, "declare_context", None)?;
+    in_order(
+        &toks(&f.block),
+        &[
+            "for field in&ctx.fields{let name=runtime.get_runtime_type(field.type_id).unwrap().name();",
+            "self.insert_context(Meta{id:MetaId(0),node:Identifier::from(field.name),},Type::Name(TypeName{name,arguments:Vec::new(),}),field.offset,)?;",
+        ],
+        "declare_context",
+    )?;
+    let f = find::func(&lower, "assign", Some("Lowerer"))?;
+    in_order(
+        &toks(&f.block),
+        &[
+            "mir::Value::Constant(name,ty)=>{let ptr_var=self.new_tmp(IrType::Pointer);self.emit_constant_address(ptr_var.clone(),name);if let Some(to)=to{self.call_clone_of(to,Location::Pointer{base:ptr_var,offset:0,},ty,);}return;}",
+            "mir::Value::Context(x)=>{let from=Location::Pointer{base:Var{scope:self.function_scope,kind:VarKind::Context,},offset:x,};if let Some(to)=to{self.call_clone_of(to,from,ty);}return;}",
+        ],
+        "Lowerer::assign",
+    )?;
+    o.push_str("\n/-! ### context fields and constants: macros/src/lib.rs, src/typechecker/mod.rs, src/lir/lower.rs -/\n/-- a context field is read (cloned) from `context pointer + offset_of!(Self, field)`, typed by the field's `TypeId`; a registered constant from the address of its stored transformed value, offset 0 -/\ndef contextFieldOffsetIsOffsetOf : Bool := true\ndef constantReadAtOffset : Nat := 0\n");
+
     // -------------------------------------------------------------- discriminants
     let ml = find::parse(repo, "src/mir/lower.rs")?;
     o.push_str("\n/-! ### discriminants: src/mir/lower.rs (`?`, `for`), src/value/list.rs (`list_get`) -/\n");
